@@ -104,9 +104,17 @@ def gen_stack(rng, tickers, dates, fi=False, allow_flow=True, calendar_only=Fals
     elif r < 0.85:
         st.append(["SelectAll"])
         st.append(["SelectMomentum", rng.randint(1, max(1, len(tickers) - 1)), gap * rng.randint(1, 4), gap * rng.randint(0, 1)])
-    else:
+    elif r < 0.92:
         st.append(["SelectAll"])
         st.append(["SelectRandomly", rng.randint(1, len(tickers)), rng.randint(0, 10 ** 6)])
+    elif r < 0.96:
+        st.append(["SelectAll"])
+        st.append(["SelectWhere", rng.randint(0, 10 ** 6)])
+    else:
+        st.append(["SelectAll"])
+        st.append(["SetStatSelectN", rng.randint(0, 10 ** 6), rng.randint(1, max(1, len(tickers) - 1)), gap * rng.randint(0, 1), rng.random() < 0.5])
+    if rng.random() < 0.12:
+        st.append(["SelectActive"])
     # weights
     r = rng.random()
     if r < 0.4:
@@ -149,7 +157,7 @@ def gen_stack(rng, tickers, dates, fi=False, allow_flow=True, calendar_only=Fals
 def stack_follows_selection(st):
     """weights only for tickers that passed a tradability filter at `now`"""
     names = [d[0] for d in st]
-    return any(n in names for n in ("WeighEqually", "WeighInvVol", "WeighRandomly")) and "SelectThese" not in names
+    return any(n in names for n in ("WeighEqually", "WeighInvVol", "WeighRandomly")) and "SelectThese" not in names and "SelectWhere" not in names and "SetStatSelectN" not in names
 
 
 def gen_run_spec(rng, nested=None, fi=False, grid=None, crash=False, calendar_children=True, T=None, ncols=None, wellformed=True):
@@ -242,12 +250,42 @@ class SetNotionalConst:
         return True
 
 
-def frame(cols, dates):
+def frame(cols, dates, perturb=None, tag=""):
     idx = pd.DatetimeIndex(dates)
-    return pd.DataFrame({k: [np.nan if x is None else float(x) for x in v] for k, v in cols.items()}, index=idx)
+    df = pd.DataFrame({k: [np.nan if x is None else float(x) for x in v] for k, v in cols.items()}, index=idx)
+    return perturb_frame(df, perturb, tag)
 
 
-def mk_algo(bt, d, tickers, dates, data):
+def perturb_frame(df, perturb, tag=""):
+    """C04: change every value dated after the cut (NaN / x10 / sign flip / fresh random), deterministically"""
+    if not perturb:
+        return df
+    import random as _random
+    cut = pd.Timestamp(perturb["cut"])
+    mode = perturb["mode"]
+    r = _random.Random("%s-%s" % (perturb.get("seed", 0), tag))
+    df = df.copy()
+    rows = [i for i in df.index if i > cut]
+    for i in rows:
+        for c in df.columns:
+            v = df.at[i, c]
+            if mode == "nan":
+                nv = np.nan
+            elif mode == "x10":
+                nv = v * 10.0
+            elif mode == "flip":
+                nv = -v
+            elif mode == "drop":
+                nv = v
+            else:
+                nv = (abs(v) if v == v else 1.0) * r.uniform(0.2, 3.0)
+            df.at[i, c] = nv
+    if mode == "drop" and rows and (tag.startswith("wt") or tag.startswith("stat")):
+        df = df.loc[[i for i in df.index if i <= cut or r.random() < 0.5]]
+    return df
+
+
+def mk_algo(bt, d, tickers, dates, data, perturb=None):
     import random as _random
     a = bt.algos
     n = d[0]
@@ -291,7 +329,26 @@ def mk_algo(bt, d, tickers, dates, data):
         s = w.abs().sum(axis=1)
         w = w.div(s.where(s > 1, 1.0), axis=0)
         keep = [i for i in range(len(idx)) if r.random() < 0.6 or i == 0]
-        return a.WeighTarget(w.iloc[keep])
+        return a.WeighTarget(perturb_frame(w.iloc[keep], perturb, "wt%d" % d[1]))
+    if n == "SelectWhere":
+        r = _random.Random(d[1])
+        idx = pd.DatetimeIndex(dates)
+        sig = pd.DataFrame({t: [r.random() < 0.6 for _ in idx] for t in tickers}, index=idx)
+        if perturb:
+            cut = pd.Timestamp(perturb["cut"])
+            for i in idx:
+                if i > cut:
+                    for t in tickers:
+                        sig.at[i, t] = not sig.at[i, t] if perturb["mode"] != "nan" else False
+        return a.SelectWhere(sig)
+    if n == "SetStatSelectN":
+        r = _random.Random(d[1])
+        idx = pd.DatetimeIndex(dates)
+        stat = pd.DataFrame({t: [float(r.randint(0, 20)) for _ in idx] for t in tickers}, index=idx)
+        stat = perturb_frame(stat, perturb, "stat%d" % d[1])
+        return bt.core.AlgoStack(a.SetStat(stat, lag=pd.DateOffset(days=d[3])), a.SelectN(d[2], sort_descending=d[4]))
+    if n == "SelectActive":
+        return a.SelectActive()
     if n == "LimitWeights":
         return a.LimitWeights(d[1])
     if n == "LimitDeltas":
@@ -338,7 +395,7 @@ def build_strategy(bt, spec, spy_log=None):
 
     def mk(t):
         tickers = (t.get("tickers") or []) + [k["name"] for k in t.get("kids", [])]
-        algos = [mk_algo(bt, d, tickers or spec["tickers"], dates, None) for d in t["stack"]]
+        algos = [mk_algo(bt, d, tickers or spec["tickers"], dates, None, spec.get("perturb")) for d in t["stack"]]
         if spy_log is not None:
             algos = [Spy()] + algos
         kids = [mk(k) for k in t.get("kids", [])]
@@ -354,13 +411,14 @@ def build_strategy(bt, spec, spy_log=None):
 
 
 def build_backtest(bt, spec, spy_log=None, capital=None, strategy=None):
-    data = frame(spec["prices"], spec["dates"])
+    pt = spec.get("perturb")
+    data = frame(spec["prices"], spec["dates"], pt, "prices")
     add = {}
     if spec.get("bidoffer"):
-        add["bidoffer"] = frame(spec["bidoffer"], spec["dates"])
+        add["bidoffer"] = frame(spec["bidoffer"], spec["dates"], pt if (pt and pt["mode"] not in ("nan", "flip", "drop")) else None, "bidoffer")
     for k in ("coupons", "cost_long", "cost_short"):
         if spec.get(k):
-            add[k] = frame(spec[k], spec["dates"])
+            add[k] = frame(spec[k], spec["dates"], pt, k)
     s = strategy if strategy is not None else build_strategy(bt, spec, spy_log)
     comm = E.make_comm(*spec["comm"])
     kw = {}
